@@ -113,6 +113,18 @@ def cases(rng, tier):
                 continue
             want = VL.py_float_repr(r) if isinstance(r, float) else str(r)
             yield Case(program=render(bi(name, *es)), tag='nary-mixed-' + ('mul' if name == 'ㄱ' else 'add'), monitor='c11_expect', data=want)
+    # integer operands of one ㄷ are added exactly, whatever their size, before a real operand *at the end* widens the sum:
+    # big integers that cancel to a small one, then a dyadic real (seeded change S11j summed through math.fsum, which
+    # rounds every integer to a double first)
+    for _ in range(120 if tier == 'quick' else 3000):
+        small = rng.randint(-50, 50)
+        bigs = [rng.choice([1, -1]) * (2 ** rng.choice([53, 54, 64, 70, 100, 200]) + rng.randint(1, 999)) for _ in range(rng.randint(1, 3))]
+        ints = bigs + [small - sum(bigs)]
+        rng.shuffle(ints)
+        fl = rng.choice([0.5, -0.5, 0.25, 1.5, -2.75, 8.0, 0.125])
+        want = float(Fraction(small) + Fraction(fl))
+        yield Case(program=render(bi('ㄷ', *[lit(x) for x in ints], VL.float_expr(fl))), tag='add-ints-then-real', monitor='c11_expect',
+                   data=VL.py_float_repr(want))
     # conversions on integers beyond the range of a double (|n| ≥ 2^1024, ≈ 309 digits): ㅈㅅ is the identity on every
     # integer and on numeric strings of any length, arithmetic stays exact, only the conversion *to* a real fails — with a
     # language exception (seeded change S11h routed ㅈㅅ through math.isfinite)
